@@ -385,3 +385,345 @@ func workOnEveryPath(c rc, name, object, typ, field string, calls []string, reas
 	}
 	c.ob("PT2", name, object, c.fpos(fn), path.MinCount(fn, is) >= 1, reason)
 }
+
+// resultUntouchedAfterTheScan (PV1): what a scanning helper has accumulated when its last
+// loop is left is what it returns: behind the loops (blocks dominated by a loop header,
+// outside every loop) nothing re-slices a value, stores into a slice or map element,
+// appends, deletes or copies. Trimming, reordering or patching the finished result for
+// particular sizes is invisible to every rule about the loop body.
+func resultUntouchedAfterTheScan(c rc, names ...string) {
+	for _, name := range names {
+		fn := c.p.Func(name)
+		if fn == nil || len(fn.Blocks) == 0 {
+			continue
+		}
+		inLoop := map[*ssa.BasicBlock]bool{}
+		var heads []*ssa.BasicBlock
+		for _, h := range fn.Blocks {
+			if l := path.NaturalLoop(h); len(l) > 0 {
+				heads = append(heads, h)
+				for b := range l {
+					inLoop[b] = true
+				}
+			}
+		}
+		if len(heads) == 0 {
+			continue
+		}
+		var bad ssa.Instruction
+		what := ""
+		for _, b := range fn.Blocks {
+			if inLoop[b] || b == fn.Recover {
+				continue
+			}
+			behind := false
+			for _, h := range heads {
+				if h.Dominates(b) {
+					behind = true
+				}
+			}
+			if !behind {
+				continue
+			}
+			// the arm of a break taken inside the body belongs to the body (Find:
+			// result[k] = v; break) and is judged by the rules about the body
+			arm := len(b.Preds) > 0
+			isHead := map[*ssa.BasicBlock]bool{}
+			for _, h := range heads {
+				isHead[h] = true
+			}
+			for _, pr := range b.Preds {
+				if !inLoop[pr] || isHead[pr] {
+					arm = false
+				}
+			}
+			if arm {
+				continue
+			}
+			for _, in := range b.Instrs {
+				switch x := in.(type) {
+				case *ssa.Slice:
+					if _, isArr := x.X.Type().Underlying().(*types.Pointer); isArr {
+						continue // slice literal: &[n]T{...}[:]
+					}
+					bad, what = in, "a re-slice"
+				case *ssa.MapUpdate:
+					bad, what = in, "a map update"
+				case *ssa.Store:
+					if _, ok := x.Addr.(*ssa.IndexAddr); ok {
+						bad, what = in, "a store into an element"
+					}
+				case *ssa.Call:
+					if bi, ok := x.Call.Value.(*ssa.Builtin); ok {
+						switch bi.Name() {
+						case "append", "delete", "copy":
+							bad, what = in, "a call of "+bi.Name()
+						}
+					}
+				}
+			}
+		}
+		pos := c.fpos(fn)
+		if bad != nil {
+			pos = c.p.InstrPos(bad)
+		}
+		c.ob("PV1", name, "result untouched after the scan", pos, bad == nil, "behind its last loop the function performs "+what+": the accumulated result is trimmed, reordered or patched before it is returned")
+	}
+}
+
+// copiesWholeMap (PV1): the function answers a fresh map that holds every entry of the
+// map it ranges over: the value returned is a make(map) of its own; one range loop, left
+// only when the range is exhausted, with no test inside it; the loop stores the key and
+// value of the current entry, unconditionally; nothing else writes to or deletes from
+// the copy.
+func copiesWholeMap(c rc, name string) {
+	fn := c.p.Func(name)
+	if fn == nil || len(fn.Blocks) == 0 {
+		return
+	}
+	fail := func(pos string, why string) {
+		c.ob("PV1", name, "answers a copy of every entry", pos, false, why)
+	}
+	var mk *ssa.MakeMap
+	for _, b := range fn.Blocks {
+		rt, ok := b.Instrs[len(b.Instrs)-1].(*ssa.Return)
+		if !ok || len(rt.Results) != 1 {
+			continue
+		}
+		// maps.Clone(stored map) is the same copy, made by the library
+		if call, isCall := path.Unspill(path.Strip(rt.Results[0])).(*ssa.Call); isCall && mk == nil {
+			if cal := call.Call.StaticCallee(); cal != nil {
+				if o := cal.Origin(); o != nil {
+					cal = o
+				}
+				if cal.Pkg != nil && (cal.Pkg.Pkg.Path() == "maps" || cal.Pkg.Pkg.Path() == "golang.org/x/exp/maps") && cal.Name() == "Clone" && len(call.Call.Args) == 1 {
+					if ld, isLd := path.Strip(call.Call.Args[0]).(*ssa.UnOp); isLd && ld.Op == token.MUL {
+						if fa, isFa := ld.X.(*ssa.FieldAddr); isFa && rootedAtReceiver(fn, fa.X) {
+							c.ob("PV1", name, "answers a copy of every entry", c.p.InstrPos(rt), true, "")
+							continue
+						}
+					}
+				}
+			}
+		}
+		m, ok := path.Unspill(path.Strip(rt.Results[0])).(*ssa.MakeMap)
+		if !ok || (mk != nil && m != mk) {
+			fail(c.p.InstrPos(rt), "the value returned is not the one map the function makes")
+			return
+		}
+		mk = m
+	}
+	if mk == nil {
+		fail(c.fpos(fn), "no map of its own is returned")
+		return
+	}
+	var hdr *ssa.BasicBlock
+	var nx *ssa.Next
+	for _, b := range fn.Blocks {
+		for _, in := range b.Instrs {
+			if n, ok := in.(*ssa.Next); ok && !n.IsString {
+				if nx != nil {
+					fail(c.p.InstrPos(n), "more than one range loop")
+					return
+				}
+				nx, hdr = n, b
+			}
+		}
+	}
+	if nx == nil {
+		// maps.Copy(copy, stored map) is the same loop, made by the library
+		nCopy, other := 0, false
+		for _, in := range path.Instrs(fn) {
+			switch x := in.(type) {
+			case *ssa.MapUpdate:
+				other = other || path.Unspill(path.Strip(x.Map)) == ssa.Value(mk)
+			case *ssa.Call:
+				cal := x.Call.StaticCallee()
+				if cal == nil {
+					continue
+				}
+				if o := cal.Origin(); o != nil {
+					cal = o
+				}
+				if cal.Pkg != nil && (cal.Pkg.Pkg.Path() == "maps" || cal.Pkg.Pkg.Path() == "golang.org/x/exp/maps") && cal.Name() == "Copy" && len(x.Call.Args) == 2 && path.Unspill(path.Strip(x.Call.Args[0])) == ssa.Value(mk) {
+					if ld, isLd := path.Strip(x.Call.Args[1]).(*ssa.UnOp); isLd && ld.Op == token.MUL {
+						if fa, isFa := ld.X.(*ssa.FieldAddr); isFa && rootedAtReceiver(fn, fa.X) && len(fn.Blocks) > 0 && x.Block() == fn.Blocks[0] {
+							nCopy++
+							continue
+						}
+					}
+					other = true
+				}
+			}
+		}
+		if nCopy == 1 && !other {
+			c.ob("PV1", name, "answers a copy of every entry", c.fpos(fn), true, "")
+			return
+		}
+		fail(c.fpos(fn), "no range over the stored map")
+		return
+	}
+	loop := path.NaturalLoop(hdr)
+	for b := range loop {
+		for _, s := range b.Succs {
+			if !loop[s] && b != hdr {
+				fail(c.p.InstrPos(b.Instrs[len(b.Instrs)-1]), "the copying loop is left before the range is exhausted: entries are missing from the answer")
+				return
+			}
+		}
+		if b != hdr && path.BlockIf(b) != nil {
+			fail(c.p.InstrPos(b.Instrs[len(b.Instrs)-1]), "the copying loop decides per entry: some entries are not copied")
+			return
+		}
+	}
+	n := 0
+	for _, in := range path.Instrs(fn) {
+		switch x := in.(type) {
+		case *ssa.MapUpdate:
+			if path.Unspill(path.Strip(x.Map)) != ssa.Value(mk) {
+				continue
+			}
+			k, okK := path.Strip(x.Key).(*ssa.Extract)
+			okK = okK && k.Tuple == ssa.Value(nx) && k.Index == 1
+			okV := false
+			switch v := path.Strip(x.Value).(type) {
+			case *ssa.Extract:
+				okV = v.Tuple == ssa.Value(nx) && v.Index == 2
+			case *ssa.Lookup: // copy[k] = stored[k]
+				if rg, isRg := nx.Iter.(*ssa.Range); isRg && !v.CommaOk {
+					ik, isK := path.Strip(v.Index).(*ssa.Extract)
+					okV = isK && ik.Tuple == ssa.Value(nx) && ik.Index == 1 && sameLoad(v.X, rg.X)
+				}
+			}
+			if !loop[in.Block()] || !okK || !okV {
+				fail(c.p.InstrPos(in), "a store into the copy that is not 'copy[key] = value' of the current entry")
+				return
+			}
+			n++
+		case *ssa.Call:
+			if bi, ok := x.Call.Value.(*ssa.Builtin); ok && bi.Name() == "delete" && path.Unspill(path.Strip(x.Call.Args[0])) == ssa.Value(mk) {
+				fail(c.p.InstrPos(in), "entries are deleted from the copy")
+				return
+			}
+		}
+	}
+	c.ob("PV1", name, "answers a copy of every entry", c.fpos(fn), n == 1, "the copying loop does not store the current entry exactly once")
+}
+
+// sameLoad: two reads of the same field of the same object (or the same value).
+func sameLoad(a, b ssa.Value) bool {
+	a, b = path.Strip(a), path.Strip(b)
+	if a == b {
+		return true
+	}
+	la, ok1 := a.(*ssa.UnOp)
+	lb, ok2 := b.(*ssa.UnOp)
+	if !ok1 || !ok2 || la.Op != token.MUL || lb.Op != token.MUL {
+		return false
+	}
+	fa, ok1 := la.X.(*ssa.FieldAddr)
+	fb, ok2 := lb.X.(*ssa.FieldAddr)
+	return ok1 && ok2 && fa.Field == fb.Field && path.Unspill(path.Strip(fa.X)) == path.Unspill(path.Strip(fb.X))
+}
+
+// copiesWholeSlice (PV1): the function answers a full copy of a slice field of its
+// receiver: make([]T, len(field)) filled by copy(dst, field), append(empty, field...) or
+// slices.Clone(field), returned as it is - no re-slice, no store into it.
+func copiesWholeSlice(c rc, name, typ, field string) {
+	fn := c.p.Func(name)
+	if fn == nil || len(fn.Blocks) == 0 {
+		return
+	}
+	isField := func(v ssa.Value) bool { return isLoadOfField(path.Strip(v), typ, field) }
+	nRet := 0
+	for _, b := range fn.Blocks {
+		rt, ok := b.Instrs[len(b.Instrs)-1].(*ssa.Return)
+		if !ok || len(rt.Results) != 1 || b == fn.Recover {
+			continue
+		}
+		nRet++
+		okC := false
+		why := "the value returned is not a copy made from the whole of " + field
+		switch v := path.Unspill(path.Strip(rt.Results[0])).(type) {
+		case *ssa.MakeSlice:
+			okLen := false
+			if call, isCall := path.Strip(v.Len).(*ssa.Call); isCall {
+				if bi, isB := call.Call.Value.(*ssa.Builtin); isB && bi.Name() == "len" && isField(call.Call.Args[0]) {
+					okLen = true
+				}
+			}
+			nCopy, touched := 0, false
+			for _, ref := range *v.Referrers() {
+				switch x := ref.(type) {
+				case *ssa.Call:
+					if bi, isB := x.Call.Value.(*ssa.Builtin); isB && bi.Name() == "copy" && x.Call.Args[0] == ssa.Value(v) && isField(x.Call.Args[1]) && x.Block().Dominates(b) {
+						nCopy++
+						continue
+					}
+					touched = true
+				case *ssa.Return, *ssa.DebugRef:
+				case *ssa.Store:
+					if _, local := x.Addr.(*ssa.Alloc); !local || x.Val != ssa.Value(v) {
+						touched = true // anything but the spill of the result in front of a deferred call
+					}
+				default:
+					touched = true
+				}
+			}
+			okC = okLen && nCopy == 1 && !touched
+			if !okLen {
+				why = "the copy is not made with len(" + field + ") cells"
+			} else if touched {
+				why = "the copy is re-sliced, written to or passed on before it is returned"
+			}
+		case *ssa.Call:
+			if bi, isB := v.Call.Value.(*ssa.Builtin); isB && bi.Name() == "append" && len(v.Call.Args) == 2 && isField(v.Call.Args[1]) {
+				switch a := path.Strip(v.Call.Args[0]).(type) {
+				case *ssa.Const:
+					okC = a.IsNil()
+				case *ssa.MakeSlice:
+					k, isK := path.IntConst(a.Len)
+					okC = isK && k == 0
+				}
+			}
+			if cal := v.Call.StaticCallee(); cal != nil {
+				if o := cal.Origin(); o != nil {
+					cal = o
+				}
+				if cal.Pkg != nil && (cal.Pkg.Pkg.Path() == "slices" || cal.Pkg.Pkg.Path() == "golang.org/x/exp/slices") && cal.Name() == "Clone" && len(v.Call.Args) == 1 && isField(v.Call.Args[0]) {
+					okC = true
+				}
+			}
+		}
+		c.ob("PV1", name, "answers a copy of every element", c.p.InstrPos(rt), okC, why)
+	}
+	if nRet == 0 {
+		c.ob("PV1", name, "answers a copy of every element", c.fpos(fn), false, "no return of one value")
+	}
+}
+
+// rootedAtReceiver: v is the receiver, or a field (of a field ...) of it, read through
+// embedded pointers.
+func rootedAtReceiver(fn *ssa.Function, v ssa.Value) bool {
+	if len(fn.Params) == 0 {
+		return false
+	}
+	for i := 0; i < 8; i++ {
+		v = path.Unspill(path.Strip(v))
+		if v == ssa.Value(fn.Params[0]) {
+			return true
+		}
+		switch x := v.(type) {
+		case *ssa.UnOp:
+			if x.Op != token.MUL {
+				return false
+			}
+			v = x.X
+		case *ssa.FieldAddr:
+			v = x.X
+		default:
+			return false
+		}
+	}
+	return false
+}
